@@ -2,6 +2,7 @@ import Iauthd.Conf.ProofsBridge2
 import Iauthd.Conf.ProofsTyped
 import Iauthd.Conf.Counterexamples
 import Iauthd.Conf.Judge
+import Iauthd.Conf.ProofsGaps
 /-
   Property C16 — "Config text means what it says".
 
@@ -10,8 +11,9 @@ import Iauthd.Conf.Judge
   (`Spec.canonTree`: later duplicates override earlier ones, repeated objects merge,
   siblings in key order, the first spelling of a name is kept).  `Spec.render doc layout`
   writes it down with a `Layout` choosing, per string, bare or quoted form and an escape
-  per byte (raw, \n-style, \xhh, \xHH, backslash), per gap one of the whitespace/comment
-  strings of `gapTable`, per entry a terminator, per list the parenthesised or the comma
+  per byte (raw, \n-style, \xhh, \xHH, backslash), per gap ANY sequence of blank bytes, newlines, C comments (any NUL-free body
+  without the closing pair) and C++ comments (`Spec.GapPiece`; gap numbers denote all of them:
+  `decodeGap_gapOfPieces`; numbers below 36 index a table of ten common ones), per entry a terminator, per list the parenthesised or the comma
   form.  `parseFile` must read every such text back as the canonical tree.
 
   Proved (kernel-checked, all documents, no size bound):
@@ -47,6 +49,14 @@ theorem C16_any_variant (V : Variant) (doc : Spec.Doc) (lay : Spec.Layout)
     (hfam : entsOk doc lay.entries = true) (hnn : EntsNN doc) :
     ∃ t, parseFile V (Spec.render doc lay) = .ok t ∧ t.map toC = Spec.canonTree doc :=
   C16_partial V doc lay hfam hnn
+
+/-- the gaps a layout can choose are all gaps: for every list of pieces there is a gap number that
+    is written as exactly those pieces (so `C16`, quantified over all layouts, covers every
+    interleaving of blanks, newlines and comments at every gap position) -/
+theorem C16_all_gaps (ps : List Spec.GapPiece) (hv : ∀ p ∈ ps, Spec.PieceNN p) :
+    Spec.gapAny (Spec.gapOfPieces ps) = Spec.renderPieces false ps ∧
+    Spec.gapFlat (Spec.gapOfPieces ps) = Spec.renderPieces true ps :=
+  Spec.gapAny_gapOfPieces ps hv
 
 theorem C16_typed (sub : SubTy) (v : Bytes) :
     (∀ n, Spec.specTyped sub.code v = .value n → parseTyped true sub v = (n, true)) ∧
